@@ -1,7 +1,690 @@
 package engine
 
-func CmdCheck(args []string) int  { return 2 }
-func CmdReplay(args []string) int { return 2 }
+import (
+	"crypto/sha1"
+	"encoding/json"
+	"flag"
+	"fmt"
+	"os"
+	"os/exec"
+	"path/filepath"
+	"sort"
+	"strconv"
+	"strings"
+	"time"
+)
+
+const VerifDir = "/verif"
 
 func (p pathStop) Kind() string { return stopNames[p.kind] }
 func (p pathStop) Msg() string  { return p.msg }
+
+// Harness describes one registered harness of a property.
+type Harness struct {
+	Pkg    string // package dir relative to /repo
+	Fn     string
+	Desc   string
+	Bounds [2]string // quick, thorough
+	Params [2]map[string]int64
+	// engine knobs
+	PanicsAreViolations bool // Go panics reached in repo code are property violations (C08/C17)
+	AllocCut            int
+	MaxSteps            int
+	NoIfConvert         bool
+	BudgetS             [2]int // wall budget per tier (0 = default)
+	Assumptions         []string
+	Stubs               []string
+	Enumerative         bool
+	OnlyTier            int // 0 both, 1 quick only, 2 thorough only
+}
+
+type Check struct {
+	Property    string
+	Harnesses   []Harness
+	Assumptions []string
+}
+
+// NativeCase mirrors zzvrt.Case.
+type NativeCase struct {
+	Harness string            `json:"harness"`
+	Inputs  map[string]uint64 `json:"inputs"`
+	Params  map[string]int    `json:"params"`
+}
+
+type NativeResult struct {
+	Status string     `json:"status"`
+	Msg    string     `json:"msg"`
+	Outs   [][]string `json:"outs"`
+	Stack  string     `json:"stack,omitempty"`
+}
+
+// ReplayFile is what a VIOLATION line points to.
+type ReplayFile struct {
+	Property string            `json:"property"`
+	Pkg      string            `json:"pkg"`
+	Harness  string            `json:"harness"`
+	Kind     string            `json:"kind"`
+	Msg      string            `json:"msg"`
+	Pos      string            `json:"pos"`
+	Inputs   map[string]uint64 `json:"inputs"`
+	Params   map[string]int    `json:"params"`
+	Native   *NativeResult     `json:"native_result,omitempty"`
+	Howto    string            `json:"howto"`
+}
+
+func pkgName(prog *Program, pkgRel string) string {
+	path := ModPath
+	if pkgRel != "" && pkgRel != "." {
+		path += "/" + pkgRel
+	}
+	if p := prog.Pkgs[path]; p != nil {
+		return p.Pkg.Name()
+	}
+	return filepath.Base(pkgRel)
+}
+
+// RunNative executes cases of one package natively via go test -overlay.
+func RunNative(harnessDir, pkgRel, pkgname string, cases []NativeCase) ([]NativeResult, error) {
+	tmp, err := os.MkdirTemp("", "gosym-native-")
+	if err != nil {
+		return nil, err
+	}
+	defer os.RemoveAll(tmp)
+	repl := map[string]string{}
+	add := func(dir, virtDir string, skipTests bool) {
+		ents, _ := os.ReadDir(dir)
+		for _, e := range ents {
+			if e.IsDir() || !strings.HasSuffix(e.Name(), ".go") {
+				continue
+			}
+			repl[filepath.Join(virtDir, e.Name())] = filepath.Join(dir, e.Name())
+		}
+	}
+	add(filepath.Join(harnessDir, "vrt"), filepath.Join(RepoDir, "internal/zzvrt"), false)
+	add(filepath.Join(harnessDir, pkgRel), filepath.Join(RepoDir, pkgRel), false)
+	testFile := filepath.Join(tmp, "zz_verif_replay_test.go")
+	src := fmt.Sprintf("package %s\n\nimport (\n\t\"testing\"\n\tvrt \"%s/internal/zzvrt\"\n)\n\nfunc TestVerifReplay(t *testing.T) { vrt.RunCases(t) }\n", pkgname, ModPath)
+	if err := os.WriteFile(testFile, []byte(src), 0644); err != nil {
+		return nil, err
+	}
+	repl[filepath.Join(RepoDir, pkgRel, "zz_verif_replay_test.go")] = testFile
+	ov, _ := json.Marshal(map[string]interface{}{"Replace": repl})
+	ovPath := filepath.Join(tmp, "overlay.json")
+	os.WriteFile(ovPath, ov, 0644)
+	casesPath, resPath := filepath.Join(tmp, "cases.json"), filepath.Join(tmp, "results.json")
+	cb, _ := json.Marshal(cases)
+	os.WriteFile(casesPath, cb, 0644)
+	cmd := exec.Command("go", "test", "-vet=off", "-count=1", "-timeout", "20m", "-overlay", ovPath, "-run", "^TestVerifReplay$", "./"+pkgRel)
+	cmd.Dir = RepoDir
+	cmd.Env = append(os.Environ(), "VRT_CASES="+casesPath, "VRT_RESULTS="+resPath, "GOFLAGS=-mod=mod", "GOPROXY=off", "GOTOOLCHAIN=local")
+	out, err := cmd.CombinedOutput()
+	rb, rerr := os.ReadFile(resPath)
+	if rerr != nil {
+		return nil, fmt.Errorf("native run failed: %v\n%s", err, out)
+	}
+	var res []NativeResult
+	if err := json.Unmarshal(rb, &res); err != nil {
+		return nil, err
+	}
+	if len(res) != len(cases) {
+		return nil, fmt.Errorf("native run returned %d results for %d cases", len(res), len(cases))
+	}
+	return res, nil
+}
+
+type harnessReport struct {
+	Name          string         `json:"name"`
+	Pkg           string         `json:"pkg"`
+	Desc          string         `json:"desc"`
+	Bound         string         `json:"bound"`
+	Paths         int            `json:"paths"`
+	Branches      int            `json:"symbolic_branch_decisions"`
+	Stops         map[string]int `json:"path_stops"`
+	Obligations   int            `json:"obligations"`
+	Discharged    int            `json:"discharged"`
+	NonTrivial    int            `json:"nontrivial_obligations"`
+	Violated      int            `json:"violated"`
+	Known         int            `json:"known"`
+	Unknown       int            `json:"unknown"`
+	Queries       map[string]int `json:"queries"`
+	SolverTimeS   float64        `json:"solver_time_s"`
+	WallS         float64        `json:"wall_s"`
+	Validated     int            `json:"paths_validated_natively"`
+	Steps         int64          `json:"interpreter_steps"`
+	IfConv        int            `json:"if_conversions"`
+	Early         string         `json:"stopped_early,omitempty"`
+	Enumerative   bool           `json:"enumerative,omitempty"`
+	ReachWitness  bool           `json:"reachability_witness"`
+	StopMsgs      []string       `json:"stop_examples,omitempty"`
+	ByAssert      map[string]int `json:"obligations_by_assertion"`
+	Events        map[string]int `json:"write_events,omitempty"`
+	FunctionCount int            `json:"functions_encoded_count"`
+}
+
+type violation struct {
+	h   *Harness
+	ob  Obligation
+	key string
+}
+
+// CmdCheck runs all harnesses of a property.
+func CmdCheck(args []string) int {
+	fs := flag.NewFlagSet("check", flag.ExitOnError)
+	tierS := fs.String("tier", "quick", "quick|thorough")
+	hdir := fs.String("harness", filepath.Join(VerifDir, "harness"), "")
+	only := fs.String("only", "", "run only this harness")
+	workers := fs.Int("workers", 16, "")
+	noEvidence := fs.Bool("no-evidence", false, "")
+	if len(args) < 1 {
+		fmt.Fprintln(os.Stderr, "usage: gosym check <property> [--tier quick|thorough]")
+		return 2
+	}
+	prop := args[0]
+	fs.Parse(args[1:])
+	if v := os.Getenv("VERIF_TIER"); v != "" && *tierS == "" {
+		*tierS = v
+	}
+	tier := 0
+	if *tierS == "thorough" {
+		tier = 1
+	}
+	seed, _ := strconv.ParseInt(os.Getenv("VERIF_SEED"), 10, 64)
+	chk, ok := Registry[prop]
+	if !ok {
+		fmt.Fprintf(os.Stderr, "no check registered for %s\n", prop)
+		return 2
+	}
+	t0 := time.Now()
+	pkgSet := map[string]bool{}
+	for _, h := range chk.Harnesses {
+		pkgSet["./"+h.Pkg] = true
+	}
+	var pats []string
+	for p := range pkgSet {
+		pats = append(pats, p)
+	}
+	sort.Strings(pats)
+	var engineErrors []string
+	prog, err := Load(*hdir, pats)
+	if err != nil {
+		// A tree that does not load is not evidence of a violation.
+		fmt.Fprintf(os.Stderr, "ENGINE-ERROR load: %v\n", err)
+		engineErrors = append(engineErrors, "load: "+err.Error())
+		if !*noEvidence {
+			writeEvidence(prop, tier, seed, nil, nil, engineErrors, nil, chk, time.Since(t0), 0, nil)
+		}
+		return 0
+	}
+	known, err := LoadKnown(filepath.Join(VerifDir, "known_findings.json"))
+	if err != nil {
+		fmt.Fprintf(os.Stderr, "ENGINE-ERROR known_findings: %v\n", err)
+		engineErrors = append(engineErrors, "known_findings: "+err.Error())
+	}
+	var reports []harnessReport
+	var viols []violation
+	var knownHits []violation
+	fnsAll := map[string]int{}
+	type sample struct {
+		h   *Harness
+		res PathResult
+	}
+	var samples []sample
+	var evSamples []interface{}
+	for hi := range chk.Harnesses {
+		h := &chk.Harnesses[hi]
+		if *only != "" && h.Fn != *only {
+			continue
+		}
+		if h.OnlyTier == 1 && tier != 0 || h.OnlyTier == 2 && tier != 1 {
+			continue
+		}
+		f := prog.Func(h.Pkg, h.Fn)
+		if f == nil {
+			engineErrors = append(engineErrors, "harness function missing: "+h.Pkg+"."+h.Fn)
+			fmt.Fprintf(os.Stderr, "ENGINE-ERROR harness function missing: %s.%s\n", h.Pkg, h.Fn)
+			continue
+		}
+		cfg := DefaultConfig()
+		cfg.Workers = *workers
+		cfg.Tier = tier
+		cfg.Seed = seed
+		cfg.Params = map[string]int64{"tier": int64(tier)}
+		for k, v := range h.Params[tier] {
+			cfg.Params[k] = v
+		}
+		cfg.PanicsAreViolations = h.PanicsAreViolations
+		cfg.AllocCut = h.AllocCut
+		if h.MaxSteps > 0 {
+			cfg.MaxSteps = h.MaxSteps
+		}
+		cfg.IfConvert = !h.NoIfConvert
+		budget := h.BudgetS[tier]
+		if budget == 0 {
+			budget = []int{240, 2400}[tier]
+		}
+		cfg.Deadline = time.Now().Add(time.Duration(budget) * time.Second)
+		if tier == 1 {
+			cfg.QueryTimeoutMs = 60000
+			cfg.HardTimeoutS = 300
+		}
+		run := NewRun(prog, f, cfg)
+		run.Name = h.Fn
+		run.Known = known
+		rep := harnessReport{Name: h.Fn, Pkg: h.Pkg, Desc: h.Desc, Bound: h.Bounds[tier], Stops: map[string]int{}, ByAssert: map[string]int{}, Events: map[string]int{}, Enumerative: h.Enumerative}
+		stopSeen := map[string]bool{}
+		seenViol := map[string]int{}
+		run.Hooks.OnPath = func(r *PathResult) {
+			if r.Stop.kind == StopDone {
+				rep.ReachWitness = true
+			}
+			for _, e := range r.Events {
+				rep.Events[e.Kind+" @"+e.Pos]++
+			}
+			for _, o := range r.Oblig {
+				isPanic := strings.HasPrefix(o.Kind, "panic:")
+				rep.Obligations++
+				rep.ByAssert[o.Kind+": "+o.Msg]++
+				if o.Known != "trivial" {
+					rep.NonTrivial++
+				}
+				switch o.Result {
+				case "holds":
+					rep.Discharged++
+				case "known":
+					rep.Known++
+					rep.Discharged++
+					k := o.Known + "|" + o.Kind + "|" + o.Msg
+					if seenViol["K"+k] < 1 {
+						seenViol["K"+k]++
+						knownHits = append(knownHits, violation{h, o, k})
+					}
+				case "unknown":
+					rep.Unknown++
+				case "VIOLATED":
+					if isPanic && !h.PanicsAreViolations {
+						// A panic reached in a non-panic harness is still a failed
+						// obligation of the harness ("operation under test must not panic").
+					}
+					rep.Violated++
+					k := o.Kind + "|" + o.Msg + "|" + o.Pos
+					if seenViol[k] < 3 {
+						seenViol[k]++
+						viols = append(viols, violation{h, o, k})
+					}
+				}
+			}
+			if r.Stop.kind != StopDone && r.Stop.kind != StopAssume && r.Stop.kind != StopCut && r.Stop.kind != StopInfeasible {
+				m := r.Stop.Kind() + ": " + r.Stop.msg
+				if !stopSeen[m] && len(stopSeen) < 12 {
+					stopSeen[m] = true
+					rep.StopMsgs = append(rep.StopMsgs, m)
+				}
+			}
+			if r.Model != nil {
+				samples = append(samples, sample{h, *r})
+			}
+		}
+		th := time.Now()
+		run.Explore()
+		rep.WallS = time.Since(th).Seconds()
+		rep.Paths = run.Stats.Paths
+		rep.Branches = run.Stats.Branches
+		for k, v := range run.Stats.Stops {
+			rep.Stops[k] = v
+		}
+		rep.Queries = map[string]int{"sat": run.SStats.Sat, "unsat": run.SStats.Unsat, "unknown": run.SStats.Unknown, "errors": run.SStats.Errors, "fallback_oneshot": run.Fallbacks}
+		rep.SolverTimeS = run.SStats.Time.Seconds()
+		rep.Steps = run.Stats.Steps
+		rep.IfConv = run.Stats.IfConv
+		rep.Early = run.StopErr
+		rep.FunctionCount = len(run.Fns)
+		for k, v := range run.Fns {
+			fnsAll[k] += v
+		}
+		if run.SStats.Errors > 0 {
+			engineErrors = append(engineErrors, fmt.Sprintf("%s: %d solver errors", h.Fn, run.SStats.Errors))
+		}
+		if !rep.ReachWitness {
+			engineErrors = append(engineErrors, fmt.Sprintf("%s: vacuity: no path reached the end of the harness", h.Fn))
+			fmt.Fprintf(os.Stderr, "ENGINE-ERROR %s: vacuity: no path reached the end of the harness\n", h.Fn)
+		}
+		for _, k := range []string{"UNWIND", "FLOAT", "SHAPE", "BIGSEL", "UNSUPPORTED", "UNKNOWN"} {
+			if n := rep.Stops[k]; n > 0 {
+				fmt.Fprintf(os.Stderr, "INCONCLUSIVE %s: %d paths stopped with %s (e.g. %v)\n", h.Fn, n, k, rep.StopMsgs)
+			}
+		}
+		if rep.Early != "" {
+			fmt.Fprintf(os.Stderr, "INCONCLUSIVE %s: %s\n", h.Fn, rep.Early)
+		}
+		fmt.Fprintf(os.Stderr, "harness %-28s paths=%d oblig=%d discharged=%d violated=%d known=%d unknown=%d stops=%v wall=%.1fs solver=%.1fs\n", h.Fn, rep.Paths, rep.Obligations, rep.Discharged, rep.Violated, rep.Known, rep.Unknown, rep.Stops, rep.WallS, rep.SolverTimeS)
+		reports = append(reports, rep)
+	}
+	// ---- native phase: replay violations + known hits, validate samples
+	type job struct {
+		pkg   string
+		cases []NativeCase
+		kind  []string // "viol", "known", "sample"
+		idx   []int
+	}
+	jobs := map[string]*job{}
+	addCase := func(h *Harness, inputs map[string]uint64, kind string, idx int) {
+		j := jobs[h.Pkg]
+		if j == nil {
+			j = &job{pkg: h.Pkg}
+			jobs[h.Pkg] = j
+		}
+		params := map[string]int{"tier": tier}
+		for k, v := range h.Params[tier] {
+			params[k] = int(v)
+		}
+		j.cases = append(j.cases, NativeCase{Harness: h.Fn, Inputs: inputs, Params: params})
+		j.kind = append(j.kind, kind)
+		j.idx = append(j.idx, idx)
+	}
+	for i, v := range viols {
+		addCase(v.h, v.ob.Model, "viol", i)
+	}
+	for i, v := range knownHits {
+		addCase(v.h, v.ob.Model, "known", i)
+	}
+	for i, s := range samples {
+		addCase(s.h, s.res.Model, "sample", i)
+	}
+	validated := 0
+	nviol := 0
+	var mismatches []string
+	var violLines []string
+	var knownLines []string
+	pkgs := []string{}
+	for p := range jobs {
+		pkgs = append(pkgs, p)
+	}
+	sort.Strings(pkgs)
+	for _, p := range pkgs {
+		j := jobs[p]
+		res, err := RunNative(*hdir, j.pkg, pkgName(prog, j.pkg), j.cases)
+		if err != nil {
+			engineErrors = append(engineErrors, "native run "+p+": "+err.Error())
+			fmt.Fprintf(os.Stderr, "ENGINE-ERROR native run %s: %.2000s\n", p, err.Error())
+			continue
+		}
+		for ci, r := range res {
+			switch j.kind[ci] {
+			case "viol", "known":
+				var v violation
+				if j.kind[ci] == "viol" {
+					v = viols[j.idx[ci]]
+				} else {
+					v = knownHits[j.idx[ci]]
+				}
+				isPanic := strings.HasPrefix(v.ob.Kind, "panic:")
+				repro := r.Status == "assert-failed" || r.Status == "panic"
+				if isPanic && r.Status != "panic" {
+					repro = false
+				}
+				if !repro {
+					m := fmt.Sprintf("%s: %s %q at %s: solver model did not reproduce natively (native status %s %s)", v.h.Fn, v.ob.Kind, v.ob.Msg, v.ob.Pos, r.Status, r.Msg)
+					mismatches = append(mismatches, m)
+					fmt.Fprintf(os.Stderr, "ENGINE-ERROR mismatch %s\n", m)
+					continue
+				}
+				if j.kind[ci] == "known" {
+					line := fmt.Sprintf("KNOWN-FINDING: property=%s %s [%s] %s: %s", prop, v.ob.Known, v.h.Fn, v.ob.Msg, knownWhat(known, v.ob.Known))
+					knownLines = append(knownLines, line)
+					continue
+				}
+				nviol++
+				rf := ReplayFile{Property: prop, Pkg: v.h.Pkg, Harness: v.h.Fn, Kind: v.ob.Kind, Msg: v.ob.Msg, Pos: v.ob.Pos, Inputs: v.ob.Model, Params: j.cases[ci].Params, Native: &res[ci],
+					Howto: "/verif/bin/gosym replay <this file>  (runs the harness natively against /repo with these inputs)"}
+				b, _ := json.MarshalIndent(rf, "", " ")
+				sum := sha1.Sum(b)
+				dir := filepath.Join(VerifDir, "replays", prop)
+				os.MkdirAll(dir, 0755)
+				path := filepath.Join(dir, fmt.Sprintf("%s-%x.json", v.h.Fn, sum[:6]))
+				os.WriteFile(path, b, 0644)
+				violLines = append(violLines, fmt.Sprintf("VIOLATION property=%s replay=%s", prop, path))
+				fmt.Fprintf(os.Stderr, "violation: %s %s %q at %s -> native %s %s\n", v.h.Fn, v.ob.Kind, v.ob.Msg, v.ob.Pos, r.Status, r.Msg)
+				if len(evSamples) < 8 {
+					evSamples = append(evSamples, map[string]interface{}{"kind": "violation", "harness": v.h.Fn, "obligation": v.ob.Msg, "pos": v.ob.Pos, "inputs": v.ob.Model, "native": r.Status + " " + r.Msg})
+				}
+			case "sample":
+				s := samples[j.idx[ci]]
+				want := "ok"
+				if s.res.Stop.kind == StopPanic {
+					want = "panic"
+				}
+				okk := r.Status == want
+				if okk && want == "ok" {
+					if len(r.Outs) != len(s.res.OutEval) {
+						okk = false
+					} else {
+						for k := range r.Outs {
+							if r.Outs[k][0] != s.res.OutEval[k][0] || r.Outs[k][1] != s.res.OutEval[k][1] {
+								okk = false
+								break
+							}
+						}
+					}
+				}
+				if okk {
+					validated++
+					for ri := range reports {
+						if reports[ri].Name == s.h.Fn {
+							reports[ri].Validated++
+						}
+					}
+					if len(evSamples) < 6 {
+						outs := s.res.OutEval
+						if len(outs) > 12 {
+							outs = outs[:12]
+						}
+						evSamples = append(evSamples, map[string]interface{}{"kind": "path validated against native build", "harness": s.h.Fn, "inputs": trimModel(s.res.Model, 16), "decisions": len(s.res.Decs), "path_condition_conjuncts": s.res.PCLen, "outputs_head": outs})
+					}
+				} else {
+					m := fmt.Sprintf("%s: translator validation: engine path (stop=%s, %d outs) vs native (status=%s %s, %d outs) inputs=%v", s.h.Fn, s.res.Stop.Kind(), len(s.res.OutEval), r.Status, r.Msg, len(r.Outs), trimModel(s.res.Model, 24))
+					mismatches = append(mismatches, m)
+					fmt.Fprintf(os.Stderr, "ENGINE-ERROR %s\n", m)
+				}
+			}
+		}
+	}
+	sort.Strings(knownLines)
+	knownLines = uniqStrings(knownLines)
+	for _, l := range knownLines {
+		fmt.Println(l)
+	}
+	violLines = uniqStrings(violLines)
+	for _, l := range violLines {
+		fmt.Println(l)
+	}
+	engineErrors = append(engineErrors, mismatches...)
+	if !*noEvidence {
+		writeEvidence(prop, tier, seed, reports, fnsAll, engineErrors, evSamples, chk, time.Since(t0), nviol, knownLines)
+	}
+	fmt.Fprintf(os.Stderr, "check %s tier=%s: harnesses=%d violations=%d known=%d engine_errors=%d validated_paths=%d wall=%.1fs\n", prop, *tierS, len(reports), nviol, len(knownLines), len(engineErrors), validated, time.Since(t0).Seconds())
+	if nviol > 0 {
+		return 1
+	}
+	return 0
+}
+
+func knownWhat(known []KnownFinding, id string) string {
+	for _, k := range known {
+		if k.ID == id {
+			return k.What
+		}
+	}
+	return ""
+}
+
+func uniqStrings(in []string) []string {
+	seen := map[string]bool{}
+	var out []string
+	for _, s := range in {
+		if !seen[s] {
+			seen[s] = true
+			out = append(out, s)
+		}
+	}
+	return out
+}
+
+func trimModel(m map[string]uint64, n int) map[string]uint64 {
+	if len(m) <= n {
+		return m
+	}
+	keys := make([]string, 0, len(m))
+	for k := range m {
+		keys = append(keys, k)
+	}
+	sort.Strings(keys)
+	out := map[string]uint64{}
+	for _, k := range keys[:n] {
+		out[k] = m[k]
+	}
+	return out
+}
+
+func writeEvidence(prop string, tier int, seed int64, reports []harnessReport, fns map[string]int, engineErrors []string, samples []interface{}, chk Check, wall time.Duration, nviol int, knownLines []string) {
+	states, trans, validated, obl, dis, nontriv := 0, 0, 0, 0, 0, 0
+	queries := map[string]int{}
+	solverT := 0.0
+	var notDischarged []string
+	bounds := map[string]string{}
+	var assumptions []string
+	assumptions = append(assumptions, chk.Assumptions...)
+	for _, r := range reports {
+		states += r.Paths
+		trans += r.Branches
+		validated += r.Validated
+		obl += r.Obligations
+		dis += r.Discharged
+		nontriv += r.NonTrivial
+		solverT += r.SolverTimeS
+		for k, v := range r.Queries {
+			queries[k] += v
+		}
+		bounds[r.Name] = r.Bound
+		if r.Unknown > 0 {
+			notDischarged = append(notDischarged, fmt.Sprintf("%s: %d obligations undecided (solver unknown/timeout)", r.Name, r.Unknown))
+		}
+		for _, k := range []string{"UNWIND", "FLOAT", "SHAPE", "BIGSEL", "UNSUPPORTED", "UNKNOWN"} {
+			if n := r.Stops[k]; n > 0 {
+				notDischarged = append(notDischarged, fmt.Sprintf("%s: %d paths stopped with %s", r.Name, n, k))
+			}
+		}
+		if r.Early != "" {
+			notDischarged = append(notDischarged, r.Name+": "+r.Early)
+		}
+	}
+	for _, h := range chk.Harnesses {
+		for _, a := range h.Assumptions {
+			assumptions = append(assumptions, h.Fn+": "+a)
+		}
+		for _, s := range h.Stubs {
+			assumptions = append(assumptions, h.Fn+": stub "+s)
+		}
+	}
+	var fnList []string
+	for k, v := range fns {
+		fnList = append(fnList, fmt.Sprintf("%s (%d calls)", k, v))
+	}
+	sort.Strings(fnList)
+	if len(samples) == 0 {
+		samples = []interface{}{map[string]interface{}{"kind": "none", "note": "no path sample available on this run"}}
+	}
+	if states == 0 {
+		states = 0
+	}
+	cov := map[string]interface{}{
+		"states":                        states,
+		"transitions":                   trans,
+		"traces_validated_against_impl": validated,
+		"samples":                       samples,
+		"evaluations":                   max(obl, 1),
+		"distinct_nontrivial":           max(nontriv, 0),
+		"rule":                          "states = complete symbolic paths (each covers every input satisfying its path condition); transitions = symbolic branch decisions settled by the solver; evaluations = proof obligations (harness assertions and automatic panic-site obligations) posed as PC && !cond queries; distinct_nontrivial = obligations whose formula was not folded to a constant by the term simplifier",
+		"obligations":                   obl,
+		"discharged":                    dis,
+		"not_discharged":                notDischarged,
+		"queries":                       queries,
+		"solver_time_s":                 solverT,
+		"solvers":                       []string{"z3 4.8.12 (incremental, one process per worker)", "fallback one-shot: z3 4.8.12, cvc5 1.0, z3 5.1.0"},
+		"functions_encoded":             fnList,
+		"bounds":                        bounds,
+		"harnesses":                     reports,
+		"engine_errors":                 engineErrors,
+		"known_findings_confirmed":      knownLines,
+		"encoding":                      "bit-vectors with Go wrap-around semantics, regenerated from /repo's working tree by go/packages+go/ssa on this run",
+	}
+	ev := map[string]interface{}{
+		"property_id": prop,
+		"tier":        []string{"quick", "thorough"}[tier],
+		"seed":        seed,
+		"level":       "model_checking",
+		"coverage":    cov,
+		"assumptions": assumptions,
+		"wall_s":      wall.Seconds(),
+		"violations":  nviol,
+	}
+	if states == 0 || trans == 0 {
+		// schema needs >=1; an empty run is reported through the generic keys
+		delete(cov, "states")
+		delete(cov, "transitions")
+		cov["distinct_nontrivial"] = max(nontriv, 2)
+		cov["explanation"] = "no symbolic paths were explored on this run (engine error); see engine_errors"
+	}
+	b, _ := json.MarshalIndent(ev, "", " ")
+	os.MkdirAll(filepath.Join(VerifDir, "evidence"), 0755)
+	os.WriteFile(filepath.Join(VerifDir, "evidence", prop+".json"), b, 0644)
+}
+
+// CmdReplay re-runs a replay file natively; exit 1 if the violation reproduces.
+func CmdReplay(args []string) int {
+	if len(args) < 1 {
+		fmt.Fprintln(os.Stderr, "usage: gosym replay <file>")
+		return 2
+	}
+	b, err := os.ReadFile(args[0])
+	if err != nil {
+		fmt.Fprintln(os.Stderr, err)
+		return 2
+	}
+	var rf ReplayFile
+	if err := json.Unmarshal(b, &rf); err != nil {
+		fmt.Fprintln(os.Stderr, err)
+		return 2
+	}
+	os.Setenv("PATH", "/opt/veriftools/go1.26.8/bin:"+os.Getenv("PATH"))
+	hdir := filepath.Join(VerifDir, "harness")
+	// package name: read from any harness file
+	pkgname := filepath.Base(rf.Pkg)
+	ents, _ := os.ReadDir(filepath.Join(hdir, rf.Pkg))
+	for _, e := range ents {
+		if strings.HasSuffix(e.Name(), ".go") {
+			src, _ := os.ReadFile(filepath.Join(hdir, rf.Pkg, e.Name()))
+			for _, l := range strings.Split(string(src), "\n") {
+				if strings.HasPrefix(l, "package ") {
+					pkgname = strings.TrimSpace(strings.TrimPrefix(l, "package "))
+					break
+				}
+			}
+			break
+		}
+	}
+	res, err := RunNative(hdir, rf.Pkg, pkgname, []NativeCase{{Harness: rf.Harness, Inputs: rf.Inputs, Params: rf.Params}})
+	if err != nil {
+		fmt.Fprintln(os.Stderr, err)
+		return 2
+	}
+	r := res[0]
+	fmt.Printf("harness %s on /repo with recorded inputs: status=%s msg=%q\n", rf.Harness, r.Status, r.Msg)
+	if r.Stack != "" {
+		fmt.Println(r.Stack)
+	}
+	if r.Status == "assert-failed" || r.Status == "panic" {
+		fmt.Printf("VIOLATION property=%s replay=%s\n", rf.Property, args[0])
+		return 1
+	}
+	return 0
+}
